@@ -186,7 +186,7 @@ class Check(Property):
             try:
                 r = uf.convert(float(x), pint_uc(uf, c["a"], "float", canonical=True), pint_uc(uf, c["b"], "float", canonical=True))
                 want = x * fa / fb
-                if want != 0:
+                if want != 0 and not math.isinf(r) and r != 0 and 1e-290 < abs(float(want)) < 1e290:
                     rel = abs(Fraction(r) / want - 1)
                     if rel > Fraction(64, 2 ** 53):
                         v.append(f"{tag} [float]: got {r!r}, exact {float(want)!r}, relative error {float(rel):.3g}")
